@@ -21,20 +21,32 @@ GEN_PATH = os.path.join(vlib.LEAN, "Mhd", "Gen", "Loop.lean")
 # ------------------------------------------------------------------ translator (A)
 
 def _func_body(text, name):
-    """text of the definition of C function `name` (from its name at line start to the closing brace)"""
-    m = re.search(r"^%s \(" % re.escape(name), text, re.M)
-    if not m:
-        return None
-    i = text.index("{", m.end())
-    depth, j = 0, i
-    while j < len(text):
-        if text[j] == "{":
-            depth += 1
-        elif text[j] == "}":
-            depth -= 1
-            if depth == 0:
-                return text[m.start():j + 1]
-        j += 1
+    """text of the definition of C function `name` (from its name at line start to the closing brace);
+    prototypes (parameter list followed by `;`) are skipped"""
+    for m in re.finditer(r"^%s \(" % re.escape(name), text, re.M):
+        depth, j = 0, m.end() - 1
+        while j < len(text):            # end of the parameter list
+            if text[j] == "(":
+                depth += 1
+            elif text[j] == ")":
+                depth -= 1
+                if depth == 0:
+                    break
+            j += 1
+        k = j + 1
+        while k < len(text) and text[k] in " \t\r\n":
+            k += 1
+        if k >= len(text) or text[k] != "{":
+            continue
+        depth, j = 0, k
+        while j < len(text):
+            if text[j] == "{":
+                depth += 1
+            elif text[j] == "}":
+                depth -= 1
+                if depth == 0:
+                    return text[m.start():j + 1]
+            j += 1
     return None
 
 
